@@ -1,7 +1,7 @@
 (* Run16.v — executable case runners for C16 (trie, SimpleVob).  Input and
    output formats are those of harness/src/c16.rs. *)
 From Coq Require Import String.
-From LLG Require Import Base Sx Svob Trie.
+From LLG Require Import Base Params Sx Svob Trie Tokenizers.
 Open Scope string_scope.
 Open Scope N_scope.
 
@@ -144,8 +144,35 @@ Fixpoint run_svob_ops (r : reg3) (ops : list sx) : list sx :=
 Definition run_svob (ops : list sx) : sx :=
   tagged "svob" (run_svob_ops (svob_new, svob_new, svob_new) ops).
 
+(* tokenizer descriptions: which bytes each vocabulary entry stands for *)
+Definition run_bytelevel (a : list sx) : sx :=
+  (* (bytelevel (cp cp ...) ...) : entries as code-point lists *)
+  tagged "ok" (map (fun e => match decode_byte_level SELF_MAPPED_RANGES (as_ns e) with
+                             | Some w => SX w
+                             | None => SY (sym "skipped")
+                             end) a).
+Definition run_bytefallback (a : list sx) : sx :=
+  (* (bytefallback x<utf8 of the space character> x<name> ...) *)
+  let sp := as_bytes (nth_sx a 0) in
+  tagged "ok" (map (fun e => match byte_fallback_bytes sp (as_bytes e) with
+                             | FOk w => SX w
+                             | FPanic => SY (sym "panic")
+                             end) (tl a)).
+Definition run_tiktoken (a : list sx) : sx :=
+  (* (tiktoken n_override|-1 ((x<bytes> rank) ...) ((x<name> rank) ...)) *)
+  let pairs l := map (fun e => (as_bytes (nth_sx (as_list e) 0), as_n (nth_sx (as_list e) 1))) (as_list l) in
+  let ov := as_z (nth_sx a 0) in
+  match tiktoken_tokens (pairs (nth_sx a 1)) (pairs (nth_sx a 2))
+                        (if (ov <? 0)%Z then None else Some (Z.to_nat ov)) with
+  | Some t => tagged "ok" (map SX t)
+  | None => tagged "err" []
+  end.
+
 Definition run_case16 (x : sx) : sx :=
   let h := head_sym x in
   if bytes_eqb h (sym "trie") then run_trie (tail_items x)
   else if bytes_eqb h (sym "svob") then run_svob (tail_items x)
+  else if bytes_eqb h (sym "bytelevel") then run_bytelevel (tail_items x)
+  else if bytes_eqb h (sym "bytefallback") then run_bytefallback (tail_items x)
+  else if bytes_eqb h (sym "tiktoken") then run_tiktoken (tail_items x)
   else SL [SY (sym "unknown")].
